@@ -2642,6 +2642,15 @@ impl<'a, E: quiver_core::effects::Effect> Compiler<'a, E> {
 
         let terms: Vec<_> = chain.terms.into_iter().collect();
         let last_index = terms.len().saturating_sub(1);
+        // A chain's provenance lets a caller read "the chain is non-nil" as "the value with that
+        // provenance matched / is non-nil". That reading only holds when the chain's result is
+        // tied to at most one match; with several (`[] = =Ok`), a non-nil verdict of the last
+        // says nothing about the value an earlier one looked at.
+        let match_count = terms
+            .iter()
+            .filter(|t| matches!(t, ast::Term::Match(_)))
+            .count()
+            + usize::from(chain.match_pattern.is_some());
         let mut prev_was_match = false;
         for (i, term) in terms.iter().enumerate() {
             let term_expected = self.expected_for_term(&terms, i, last_index, expected);
@@ -2727,7 +2736,13 @@ impl<'a, E: quiver_core::effects::Effect> Compiler<'a, E> {
                 true, // Direct assignment returns Ok
                 narrowing,
             )?;
-            Ok((ty, current_prov))
+            if match_count > 1 {
+                Ok((ty, Provenance::Unknown))
+            } else {
+                Ok((ty, current_prov))
+            }
+        } else if match_count > 1 {
+            Ok((result_type, Provenance::Unknown))
         } else {
             Ok((result_type, current_prov))
         }
